@@ -237,7 +237,7 @@ def _find_shebang(source):
     if isinstance(source, bytes):
         shebang = re.match(br'^#![^\r\n]*', source)
         if shebang:
-            return shebang.group().decode(_source_encoding(source))
+            return shebang.group().decode(_source_encoding(source), 'replace')
     else:
         shebang = re.match(r'^#![^\r\n]*', source)
         if shebang:
